@@ -102,7 +102,8 @@ theorem opOK_apply {st st' : State} {op : Op} {r : Res} (hinv : IndexInv st.kv) 
   | closeMarket m =>
     simp only [apply] at h
     split_ifs at h
-    cases h
+    simp only [Option.some.injEq, Prod.mk.injEq] at h
+    obtain ⟨rfl, _⟩ := h
     exact ⟨opOK_closeMarket _ _, rfl⟩
   | setAccepting m a signer =>
     obtain ⟨kv, hk, rfl⟩ := wk h
